@@ -28,6 +28,22 @@ def letter_table(ctx, rep):
             row.update(lower=['?'], upper=['?'], back=-1, backu=-1)
         tab.append(row)
         rep.case(n)
+    # far beyond 32 bits (TLC's integers end there): the same two functions against an independent implementation of the
+    # numbering (mrender.letters, itself compared with LetterId by TLC through the rows above) and back
+    big = [2 ** 31, 2 ** 40, 2 ** 53 - 1, 2 ** 53, 2 ** 53 + 1, 26 ** 12 - 1, 26 ** 12, 99246114928149461, 10 ** 18, 26 ** 13 + 12345]
+    big += [r.randint(2 ** 31, 10 ** 18) for _ in range(ctx.pick(300, 3000))]
+    for n in big:
+        rep.case('big:%d' % n)
+        try:
+            lo = number_to_letter_id(n, False)
+            back = letter_id_to_number(lo)
+        except Exception as e:
+            rep.violation('letters-exception', 'letter functions raise for %d: %r' % (n, e), {'kind': 'letters', 'n': n})
+            continue
+        if lo != mrender.letters(n) or back != n or number_to_letter_id(n, True) != mrender.letters(n).upper():
+            rep.violation('letters-differ:big', 'position %d is written %r (expected %r) and converts back to %d' % (n, lo, mrender.letters(n), back),
+                          {'kind': 'letters', 'n': n})
+            break
     # the generator used for connection names hands out 0, 1, 2, ... in order
     g = LetterIdGenerator()
     names = [g.next() for _ in range(min(top, 60000))]
